@@ -137,6 +137,7 @@ type LocalSuperior struct {
 	taskCache     *ccache.CCache // indexed by job_id
 	taskCacheLock sync.Mutex
 	latestTask    protocol.Message // latest request_qualities job
+	latestLock    sync.Mutex       // a collector subscribes either before or after a broadcast task, never in between
 }
 
 func NewLocalSuperior() *LocalSuperior {
@@ -153,8 +154,11 @@ func NewLocalSuperior() *LocalSuperior {
 }
 
 func (ls *LocalSuperior) Subscribe(ctx context.Context, c Collector) {
+	ls.latestLock.Lock()
 	ls.baseSuperior.Subscribe(ctx, c)
-	if task := ls.latestTask; task != nil {
+	task := ls.latestTask
+	ls.latestLock.Unlock()
+	if task != nil {
 		ls.Send(ctx, c.ID(), task)
 	}
 }
@@ -166,8 +170,10 @@ func (ls *LocalSuperior) AddTask(ctx context.Context, collectorID uuid.UUID, req
 	ls.taskCacheLock.Unlock()
 
 	if collectorID == uuid.Nil {
+		ls.latestLock.Lock()
 		ls.latestTask = req
 		ls.Broadcast(ctx, req)
+		ls.latestLock.Unlock()
 	} else {
 		ls.Send(ctx, collectorID, req)
 	}
@@ -185,9 +191,11 @@ func (ls *LocalSuperior) RemoveTask(id uuid.UUID) {
 	ch := v.(chan *CollectorMsg)
 	close(ch)
 	ls.taskCache.Remove(id)
+	ls.latestLock.Lock()
 	if ls.latestTask != nil && ls.latestTask.ID() == id {
 		ls.latestTask = nil
 	}
+	ls.latestLock.Unlock()
 }
 
 func (ls *LocalSuperior) submitCollectorMsg(ctx context.Context, resp *CollectorMsg) (err error) {
@@ -244,6 +252,7 @@ type RemoteSuperior struct {
 	reader       MessageReader
 	writer       ReportWriter
 	latestTask   protocol.Message // latest request_qualities job
+	latestLock   sync.Mutex       // a collector subscribes either before or after a broadcast task, never in between
 }
 
 func NewRemoteSuperior(ctx context.Context, reader MessageReader, writer ReportWriter, afterStopped func()) (*RemoteSuperior, context.CancelFunc) {
@@ -265,8 +274,11 @@ func NewRemoteSuperior(ctx context.Context, reader MessageReader, writer ReportW
 }
 
 func (rs *RemoteSuperior) Subscribe(ctx context.Context, c Collector) {
+	rs.latestLock.Lock()
 	rs.baseSuperior.Subscribe(ctx, c)
-	if task := rs.latestTask; task != nil {
+	task := rs.latestTask
+	rs.latestLock.Unlock()
+	if task != nil {
 		rs.Send(ctx, c.ID(), task)
 	}
 }
@@ -332,10 +344,12 @@ process:
 			go rs.waitStop()
 			break process
 		}
+		rs.latestLock.Lock()
 		if msg.MsgType() == protocol.MsgTypeRequestQualities {
 			rs.latestTask = msg
 		}
 		rs.Broadcast(rs.ctx, msg)
+		rs.latestLock.Unlock()
 	}
 }
 
